@@ -138,6 +138,12 @@ def collect(schemas, refs):
     for rel in refs:
         scripts.append(ref_script(rel))
         keys.append(("r", rel))
+    for s in schemas:
+        # the third way a library comes into being: create_or_load_database on an empty directory — called the way a
+        # caller who wants "this version, or whatever is there" writes it: ONE variable for the requested (in) and the
+        # loaded (out) schema (`+sameref`, harness only)
+        scripts.append(["create_or_load %s fresh +sameref" % s, "schema.dump", "closeall", "load"])
+        keys.append(("col", s))
     res = runner.run_harness(scripts, stateless=False, watchdog=60)
     return {k: outs for k, (outs, _) in zip(keys, res)}
 
@@ -159,6 +165,24 @@ def decide(schemas, refs, outs, all_pairs=True):
         lines.append(line)
         ask.append((kind, payload))
 
+    hist["create_or_load_as_requested"] = 0
+    for s in schemas:
+        o = outs.get(("col", s))
+        if o is None:
+            continue
+        info_c, _ = split_dump(o[1]) if len(o) > 1 else (None, None)
+        ref_o = outs.get(("c", s, "disk"))
+        info_d, _ = split_dump(ref_o[1]) if ref_o and len(ref_o) > 1 else (None, None)
+        good = (o[0] == "ok created=1 schema=" + s and len(o) > 3 and o[3] == "ok " + s and info_c is not None
+                and (info_d is None or (info_c["ver"], info_c["perf"]) == (info_d["ver"], info_d["perf"])))
+        if good:
+            hist["create_or_load_as_requested"] += 1
+        else:
+            violations.append(viol("create_or_load", "create_or_load_database on an empty directory (requested and loaded "
+                                   "schema bound to one variable) does not give a library of the requested version %s: "
+                                   "answer '%s', stamped %s, reload '%s'" % (s, o[0][:60], info_c and (info_c["ver"], info_c["perf"]),
+                                                                             (o[3] if len(o) > 3 else "-")[:60]),
+                                   None, ["schema: " + s, "create_or_load %s fresh +sameref" % s, "impl: " + o[0][:200]]))
     dumps = {}                     # id -> (info, text)
     for s in schemas:
         for form in ("mem", "disk"):
